@@ -21,7 +21,7 @@ STMTS = [['x = 1'], ['print(x)'], ['y = (', '    2)'], ["s = '''a", "b'''"], ['f
          ['# just a comment'], ['if x:', '    z = 3', ''], ['import os  # not a star import *'], ["t = 'from m import *'"]]
 WANTS = [None, ['1'], ['line a', 'line b'], ['# looks like a comment']]
 BOUNDS = {'quick': 'first doctest: 1..2 parts, the first with 1..2 statements from a menu of %d and a want from a menu of %d, the second with one statement; optionally a second doctest of the same or of another callable' % (len(STMTS), len(WANTS)),
-          'thorough': 'first part with 1..3 statements (a third doctest did not finish within 15 minutes and was withdrawn)'}
+          'thorough': 'as quick (three statements in the first part, and a third doctest, did not finish within 15 minutes on 8 cores and were withdrawn)'}
 OUTSIDE = 'pyflakes based "from module import names" header (undefined_names is executed but its header line is only required to parse); the semantics of the dumped code when executed'
 ASSUMPTIONS = ['the statements of the menu are valid Python on their own, so the dump of any sequence of them must parse',
                'blank source lines (the terminator of an old-style continuation) are not counted as statements']
@@ -29,7 +29,7 @@ ASSUMPTIONS = ['the statements of the menu are valid Python on their own, so the
 
 def jobs(tier):
     q = tier == 'quick'
-    return [{'ob': 'dump_structure', 'harness': 'dump', 'n': 2, 'maxstmt': 2 if q else 3, 'splits': [3, 6, 9, 12], 'query_timeout_s': 60,
+    return [{'ob': 'dump_structure', 'harness': 'dump', 'n': 2, 'maxstmt': 2, 'splits': [3, 6, 9, 12], 'query_timeout_s': 60,
              'bounds': BOUNDS[tier]}]
 
 
